@@ -43,6 +43,8 @@ type LVal struct {
 	Ref    string // object reference / base
 	Idx    string // element index (absolute)
 	Parent *LVal
+	Sl     string // for elements addressed through a slice: the slice term and the relative index
+	RelIdx string
 	FIdx   int // field index for LSubField
 	ST     *types.Struct
 	STName string
@@ -74,7 +76,14 @@ type RangeIter struct {
 type State struct {
 	cells  map[*ssa.Alloc]Term
 	heap   map[string]Term
+	bases  map[string]baseInfo // per heap key: last wholesale version (entry / havoc) and the allocation frontier at that time
 	defers []deferred
+}
+
+type baseInfo struct{ base, frontier string }
+
+func newState() *State {
+	return &State{cells: map[*ssa.Alloc]Term{}, heap: map[string]Term{}, bases: map[string]baseInfo{}}
 }
 
 type deferred struct {
@@ -83,9 +92,12 @@ type deferred struct {
 }
 
 func (s *State) clone() *State {
-	n := &State{cells: make(map[*ssa.Alloc]Term, len(s.cells)), heap: make(map[string]Term, len(s.heap))}
+	n := &State{cells: make(map[*ssa.Alloc]Term, len(s.cells)), heap: make(map[string]Term, len(s.heap)), bases: make(map[string]baseInfo, len(s.bases))}
 	for k, v := range s.cells {
 		n.cells[k] = v
+	}
+	for k, v := range s.bases {
+		n.bases[k] = v
 	}
 	for k, v := range s.heap {
 		n.heap[k] = v
@@ -412,6 +424,40 @@ func (vc *VC) heapGet(st *State, key string) Term {
 	return Term{S: name, Sort: sort}
 }
 
+// baseOf returns the last wholesale version of a heap key in st and the allocation frontier it was closed under.
+func (vc *VC) baseOf(st *State, key string) baseInfo {
+	if b, ok := st.bases[key]; ok {
+		return b
+	}
+	return baseInfo{vc.heapGet(&State{heap: map[string]Term{}}, key).S, q("H0 ALLOC")}
+}
+
+// havocKey replaces a heap key by a fresh version closed under the current allocation frontier.
+func (vc *VC) havocKey(st *State, key string, prefix string) string {
+	s := vc.heapSortOfKey(key)
+	n := vc.fresh(prefix, s)
+	st.heap[key] = Term{S: n, Sort: s}
+	if key != "ALLOC" {
+		st.bases[key] = baseInfo{n, vc.heapGet(st, "ALLOC").S}
+	}
+	return n
+}
+
+// closedFact: the value stored at this location in the base version was allocated before the base's frontier.
+func (vc *VC) closedFact(st *State, key string, t types.Type, at func(base string) string) {
+	if t == nil {
+		return
+	}
+	b := vc.baseOf(st, key)
+	v := at(b.base)
+	switch t.Underlying().(type) {
+	case *types.Pointer, *types.Map, *types.Interface, *types.Chan:
+		vc.emit(fmt.Sprintf("(assert (< %s %s))", v, b.frontier))
+	case *types.Slice:
+		vc.emit(fmt.Sprintf("(assert (< (sl.base %s) %s))", v, b.frontier))
+	}
+}
+
 func (vc *VC) heapSet(st *State, key string, val string) {
 	sort := vc.heapSortOfKey(key)
 	v := vc.define("h", sort, val)
@@ -475,6 +521,21 @@ func (vc *VC) fld(t types.Type, fname string, ref string) string {
 	return app(fn, ref)
 }
 
+// elemFn returns the named accessor for slice elements of the given sort (declared on demand).
+func (vc *VC) elemFn(es string) string {
+	if es == bvSort(8) {
+		return "el8"
+	}
+	fn := q("elem!" + es)
+	if !vc.declared[fn] {
+		vc.declared[fn] = true
+		ms := arrSort(SInt, arrSort(SInt, es))
+		vc.emit(fmt.Sprintf("(declare-fun %s (%s Slice Int) %s)", fn, ms, es))
+		vc.emit(fmt.Sprintf("(assert (forall ((m %s) (s Slice) (k Int)) (! (= (%s m s k) (select (select m (sl.base s)) (+ (sl.off s) k))) :pattern ((%s m s k)))))", ms, fn, fn))
+	}
+	return fn
+}
+
 func (vc *VC) allocKey() string {
 	vc.regKey("ALLOC", SInt)
 	return "ALLOC"
@@ -534,11 +595,17 @@ func (vc *VC) load(st *State, l *LVal) Term {
 		h := vc.heapGet(st, l.Key)
 		v := vc.define("ld", vc.sortOf(l.T), sel(h.S, l.Ref))
 		vc.assumeAllocated(st, l.T, v)
+		vc.closedFact(st, l.Key, l.T, func(b string) string { return sel(b, l.Ref) })
 		return Term{S: v, Sort: vc.sortOf(l.T), T: l.T}
 	case LElem:
 		h := vc.heapGet(st, l.Key)
-		v := vc.define("ld", vc.sortOf(l.T), sel(sel(h.S, l.Ref), l.Idx))
+		raw := sel(sel(h.S, l.Ref), l.Idx)
+		if l.Sl != "" {
+			raw = app(vc.elemFn(vc.sortOf(l.T)), h.S, l.Sl, l.RelIdx)
+		}
+		v := vc.define("ld", vc.sortOf(l.T), raw)
 		vc.assumeAllocated(st, l.T, v)
+		vc.closedFact(st, l.Key, l.T, func(b string) string { return sel(sel(b, l.Ref), l.Idx) })
 		return Term{S: v, Sort: vc.sortOf(l.T), T: l.T}
 	case LGlobal, LPtr:
 		if l.Kind == LGlobal {
@@ -549,8 +616,12 @@ func (vc *VC) load(st *State, l *LVal) Term {
 		h := vc.heapGet(st, l.Key)
 		v := vc.define("ld", vc.sortOf(l.T), sel(h.S, l.Ref))
 		vc.assumeAllocated(st, l.T, v)
+		vc.closedFact(st, l.Key, l.T, func(b string) string { return sel(b, l.Ref) })
 		return Term{S: v, Sort: vc.sortOf(l.T), T: l.T}
 	case LTable:
+		if l.Idx == "" {
+			return Term{S: l.Key, Sort: vc.sortOf(l.T), T: l.T}
+		}
 		return Term{S: app(l.Key, l.Idx), Sort: vc.sortOf(l.T), T: l.T}
 	case LSubField:
 		p := vc.load(st, l.Parent)
@@ -767,7 +838,7 @@ type edgeOut struct {
 // mergeStates merges the incoming (condition,state) pairs.
 func (vc *VC) mergeStates(ins []edgeOut) (*State, string) {
 	if len(ins) == 0 {
-		return &State{cells: map[*ssa.Alloc]Term{}, heap: map[string]Term{}}, "false"
+		return newState(), "false"
 	}
 	if len(ins) == 1 {
 		return ins[0].st.clone(), ins[0].cond
@@ -778,7 +849,7 @@ func (vc *VC) mergeStates(ins []edgeOut) (*State, string) {
 	}
 	pc := vc.fresh("pc", SBool)
 	vc.emit("(assert (= " + pc + " " + mkOr(conds...) + "))")
-	out := &State{cells: map[*ssa.Alloc]Term{}, heap: map[string]Term{}}
+	out := newState()
 	// cells
 	cellKeys := map[*ssa.Alloc]bool{}
 	for _, in := range ins {
@@ -823,6 +894,7 @@ func (vc *VC) mergeStates(ins []edgeOut) (*State, string) {
 		hk = append(hk, k)
 	}
 	sort.Strings(hk)
+	var mixed []string
 	for _, k := range hk {
 		var vals []Term
 		same := true
@@ -833,8 +905,20 @@ func (vc *VC) mergeStates(ins []edgeOut) (*State, string) {
 				same = false
 			}
 		}
+		sameBase := true
+		b0 := vc.baseOf(ins[0].st, k)
+		for _, in := range ins[1:] {
+			if vc.baseOf(in.st, k) != b0 {
+				sameBase = false
+			}
+		}
 		if same {
 			out.heap[k] = vals[0]
+			if sameBase {
+				out.bases[k] = b0
+			} else {
+				mixed = append(mixed, k)
+			}
 			continue
 		}
 		s := vals[len(vals)-1].S
@@ -844,6 +928,18 @@ func (vc *VC) mergeStates(ins []edgeOut) (*State, string) {
 		n := vc.fresh("mh", vals[0].Sort)
 		vc.emit("(assert (= " + n + " " + s + "))")
 		out.heap[k] = Term{S: n, Sort: vals[0].Sort}
+		if sameBase {
+			out.bases[k] = b0
+		} else {
+			mixed = append(mixed, k)
+		}
+	}
+	// keys whose predecessors disagree on the base version: the merged term becomes the base at the merged frontier
+	for _, k := range mixed {
+		if k == "ALLOC" {
+			continue
+		}
+		out.bases[k] = baseInfo{out.heap[k].S, vc.heapGet(out, "ALLOC").S}
 	}
 	// defers: must agree
 	out.defers = append(out.defers, ins[0].st.defers...)
@@ -1094,6 +1190,7 @@ func (vc *VC) cutLoop(fr *Frame, li *loopInfo, entrySt *State, entryPC string, i
 		hk = append(hk, k)
 	}
 	sort.Strings(hk)
+	var later []string
 	for _, k := range hk {
 		if _, ok := vc.eng.keySorts[k]; !ok {
 			continue
@@ -1105,9 +1202,10 @@ func (vc *VC) cutLoop(fr *Frame, li *loopInfo, entrySt *State, entryPC string, i
 			st.heap[k] = Term{S: n, Sort: SInt}
 			continue
 		}
-		s := vc.heapSortOfKey(k)
-		n := vc.fresh("lh", s)
-		st.heap[k] = Term{S: n, Sort: s}
+		later = append(later, k)
+	}
+	for _, k := range later {
+		vc.havocKey(st, k, "lh")
 	}
 	for phi := range phiEntry {
 		s := vc.sortOf(phi.Type())
@@ -1245,6 +1343,32 @@ func (vc *VC) globalSym(st *State, g *ssa.Global) Sym {
 		r := vc.globalRef(g)
 		// below allocation frontier
 		return Sym{T: Term{S: r, Sort: SInt, T: g.Type()}}
+	}
+	if gc := vc.eng.globalConstInfo(g); gc.immutable {
+		// assigned only by the package initialiser: a constant
+		name := q("gc!" + g.Pkg.Pkg.Path() + "." + g.Name())
+		sort := vc.sortOf(et)
+		if !vc.declared[name] {
+			vc.declared[name] = true
+			vc.emit("(declare-const " + name + " " + sort + ")")
+			switch gc.kind {
+			case "const":
+				cv := vc.constVal(gc.val.Value, et)
+				vc.emit("(assert (= " + name + " " + cv.S + "))")
+			case "sentinel":
+				vc.emit(fmt.Sprintf("(assert (and (> %s 0) (< %s %s) (= (rootof %s) %s) (= (refkind %s) (- %d))))", name, name, q("H0 ALLOC"), name, name, name, 100000+vc.eng.globalIndex(g)))
+			default:
+				switch et.Underlying().(type) {
+				case *types.Pointer, *types.Map, *types.Interface, *types.Chan:
+					vc.emit(fmt.Sprintf("(assert (and (< %s %s) (< (rootof %s) %s)))", name, q("H0 ALLOC"), name, q("H0 ALLOC")))
+				case *types.Slice:
+					vc.emit(fmt.Sprintf("(assert (and (slice_wf %s) (< (sl.base %s) %s) (< (rootof (sl.base %s)) %s)))", name, name, q("H0 ALLOC"), name, q("H0 ALLOC")))
+				}
+			}
+			vc.trusted["package variable "+g.String()+" is assigned only by its initialiser (whole-program scan): treated as a constant"] = true
+		}
+		l := &LVal{Kind: LTable, Key: name, Idx: "", T: et}
+		return Sym{L: l}
 	}
 	key := "G:" + g.Pkg.Pkg.Path() + "." + g.Name()
 	vc.regKey(key, vc.sortOf(et))
